@@ -119,6 +119,9 @@ func c13Reference(spec ReSpec, op *Op, cap int64) c13ref {
 	if v, ok := c13Cache[key]; ok {
 		return v
 	}
+	if len(c13Cache) > 40000 {
+		c13Cache = map[string]c13ref{}
+	}
 	resetGlobals(0)
 	re, err := compileSpec(spec)
 	if err != nil {
@@ -135,7 +138,7 @@ func c13Reference(spec ReSpec, op *Op, cap int64) c13ref {
 	})
 	w.Run()
 	v := c13ref{res: res, steps: steps, capped: w.Stop != vsim.StopNone}
-	v.peak, _, _, _ = regexp2.VerifRunnerCaps(re)
+	v.peak, _, _, _, _ = regexp2.VerifRunnerCaps(re)
 	v.tc = regexp2.VerifTrackCount(re)
 	c13Cache[key] = v
 	return v
@@ -316,7 +319,10 @@ func runC13(sc *Scenario, ro runOpts) *runResult {
 			vsim.SetOpLimits(20*refs[0].steps+20000, 0)
 			got := execOp(re, &ops[0], nil)
 			vsim.SetOpLimits(0, 0)
-			track, _, _, _ := regexp2.VerifRunnerCaps(re)
+			track, _, _, _, capOK := regexp2.VerifRunnerCaps(re)
+			if !capOK {
+				rr.Probes["capacity_observer_unavailable"]++
+			}
 			lr := lres{l: L, outcome: limitOutcome(got, refs[0].res), got: got, capTrack: track}
 			// recovery: the Regexp (and the abandoned interpreter state the pool hands back) stays usable
 			for i := 1; i < len(ops); i++ {
@@ -327,7 +333,7 @@ func runC13(sc *Scenario, ro runOpts) *runResult {
 				if o := limitOutcome(g, refs[i].res); o != "ok" && o != "limit" {
 					viol("limit-recovery", i, "%s: after the call under L=%d (%s), %s on %s returned %s, unlimited result %s", desc, L, lr.outcome, opNames[ops[i].Kind], clip(fmt.Sprintf("%q", ops[i].In.Text())), clip(g), clip(refs[i].res))
 				}
-				if t2, _, _, _ := regexp2.VerifRunnerCaps(re); t2 > track {
+				if t2, _, _, _, _ := regexp2.VerifRunnerCaps(re); t2 > track {
 					track = t2
 				}
 			}
@@ -339,7 +345,7 @@ func runC13(sc *Scenario, ro runOpts) *runResult {
 			} else if o != lr.outcome {
 				rr.Probes["repeat_outcome_differs"]++
 			}
-			if t2, _, _, _ := regexp2.VerifRunnerCaps(re); t2 > track {
+			if t2, _, _, _, _ := regexp2.VerifRunnerCaps(re); t2 > track {
 				track = t2
 			}
 			lr.capTrack = track
